@@ -16,6 +16,12 @@ import tempfile
 
 from . import common as cm
 
+ANCHORS = ["pyflyby._py:_parse_auto_apply_args", "pyflyby._py:UserExpr._infer_and_evaluate", "pyflyby._py:_get_argspec",
+           "pyflyby._py:_interpret_arg_mode", "pyflyby._py:auto_apply", "pyflyby._py:_Namespace.auto_eval",
+           "pyflyby._py:_PyMain._parse_global_opts", "pyflyby._py:_PyMain._run_action", "pyflyby._py:_PyMain.apply",
+           "pyflyby._py:_PyMain.eval", "pyflyby._py:_PyMain.execfile", "pyflyby._py:_PyMain.exec_stdin",
+           "pyflyby._py:_PyMain.heuristic_cmd", "pyflyby._py:_PyMain.run_module", "pyflyby._py:_PyMain.heuristic_run_module"]
+
 REQ = ["Base.StrX", "PyArgs.Parse", "PyArgs.BindSpec", "PyArgs.Wire"]
 MODES = ["string", "eval", "auto"]
 KINDS = ["function", "method", "class", "opaque"]
@@ -445,6 +451,9 @@ def impl_case(c):
             return {"mode": None}
     if c["kind"] == "cli":
         return impl_cli(c)
+    if c["kind"] == "main":
+        from . import c15_main
+        return c15_main.impl_main(c)
     raise ValueError(c["kind"])
 
 
@@ -468,14 +477,15 @@ def impl_cli(c):
         env = dict(os.environ)
         env["PYTHONPATH"] = "%s/lib/python:%s" % (repo, d)
         env["HOME"] = d
-        cmd = [sys.executable, os.path.join(repo, "bin", "py")] + c["flags"] + ["c15mod." + c["func"]] + c["argv"]
+        callee = "print" if c["func"] == "print" else "c15mod." + c["func"]
+        cmd = [sys.executable, os.path.join(repo, "bin", "py")] + c["flags"] + [callee] + c["argv"]
         p = subprocess.run(cmd, cwd=d, env=env, input=c.get("stdin", ""), stdout=subprocess.PIPE, stderr=subprocess.PIPE,
                            text=True, timeout=60)
         res = None
         for line in p.stdout.split("\n"):
             if line.startswith("RESULT "):
                 res = json.loads(line[7:])
-        return {"rc": p.returncode, "result": res, "stderr_tail": p.stderr[-300:]}
+        return {"rc": p.returncode, "result": res, "stderr_tail": p.stderr[-300:], "stdout": p.stdout[-2000:]}
     finally:
         shutil.rmtree(d, ignore_errors=True)
 
@@ -603,6 +613,10 @@ def model_exprs(cases, impl):
         elif c["kind"] == "bind":
             exprs.append(bind_expr(c["sig"], ["str:" + p for p in c["pos"]], [[k, "str:" + v] for k, v in c["kw"]]))
             index.append((ci, "bind"))
+        elif c["kind"] == "main":
+            from . import c15_main
+            exprs.append(c15_main.main_expr(c, im))
+            index.append((ci, "main"))
         elif c["kind"] == "argmode":
             a = c["arg"]
             exprs.append("run_arg_mode %s %s" % (cm.copt(None if a is None else a.strip().lower(), cm.cstr),
@@ -806,8 +820,8 @@ def gen_cli_cases(ctx, n):
     for i in range(n):
         r = cm.rng(ctx.seed, "c15cli", i)
         flags = r.choice([["--safe"], ["--args=string"], ["--args", "string"], ["--safe", "--apply"], ["--args=auto"]])
-        func = r.choice(["show", "show", "two"])
-        vals = [v for v in PLAIN + EXPRS + ["o'q", "$HOME", "a;b", "*.py", "a|b", "/usr/bin", "a\\b", "\u00e9", "foo=1"]
+        func = r.choice(["show", "show", "two", "print"])
+        vals = [v for v in PLAIN + EXPRS + ["(1+2)", "[1,2]", "(3)", "(1+2)", "o'q", "$HOME", "a;b", "*.py", "a|b", "/usr/bin", "a\\b", "\u00e9", "foo=1"]
                 if v.strip() and not v.startswith("-") and v not in ("?", "??", "sys.exit(3)", "print(end='')")]
         argv = [r.choice(vals) for _ in range(r.randint(1, 3))]
         if r.random() < .5:
@@ -834,6 +848,13 @@ def oracle_cli(c, im):
             kw["key"] = a[6:]
         else:
             pos.append(a)
+    if c["func"] == "print":
+        if kw:
+            return None
+        if im["rc"] != 0 or im["stdout"] != " ".join(pos) + "\n":
+            return "bin/py %s print %r: expected the strings printed verbatim, got rc=%s %r %s" % (
+                " ".join(c["flags"]), argv, im["rc"], im["stdout"], im["stderr_tail"][-120:])
+        return None
     if c["func"] == "two":
         if len(pos) < 1:
             return None
@@ -908,6 +929,18 @@ def compare(ctx, cases, impl, index, model):
                 ctx.disagreement("BindSpec.bind vs inspect.signature.bind", c, im["pybind"], mb)
             ctx.bump("bind:" + ("ok" if im["pybind"] else "TypeError"))
             ctx.count(c, True)
+        elif c["kind"] == "main":
+            from . import c15_main
+            mv = c15_main.model_view(m["main"])
+            cls = im["cls"]
+            ctx.bump("main:" + cls["kind"])
+            rg = c15_main.read_globals(im["obs"]["argv"])
+            ctx.bump("main_mode:" + str(rg[0] if rg else "?"))
+            if not c15_main.same(mv, cls):
+                ctx.disagreement("_PyMain.run (front end)", c, cls, mv)
+            for clause, msg in c15_main.oracle_main(c, im) + c15_main.oracle_main_auto(c, im):
+                ctx.violation(clause, c, msg)
+            ctx.count(c, len(c["argv"]) > 1)
         elif c["kind"] == "argmode":
             if m["argmode"] != im["mode"]:
                 ctx.disagreement("_interpret_arg_mode", c, im["mode"], m["argmode"])
@@ -916,14 +949,16 @@ def compare(ctx, cases, impl, index, model):
 
 
 def run(ctx):
-    n = 3000 if ctx.quick else 60000
+    cm.check_anchors(ctx, ANCHORS)
+    n = (2400 if ctx.quick else 60000) * ctx.scale
     n = int(os.environ.get("VERIF_C15_N", n))
     ctx.coverage["rule"] = (
         "cases from one seeded PRNG: 80% _parse_auto_apply_args(_get_argspec(f), argv, ns, mode) on generated signatures "
         "(positional, defaults, *args, keyword-only, **kwargs, forced shared prefixes, non-ASCII names; plain function, bound "
         "method, class, opaque callable) x command lines (--k=v, --k v, -k v, -k=v, --k=, --, -, help forms, expression-like "
         "and shell-like strings) x string/eval/auto; 10% direct BindSpec.bind vs inspect.signature.bind; 10% _interpret_arg_mode; "
-        "plus bin/py subprocess runs; thorough (60 000 generated) adds all argv of length <= 3 over a 14-token alphabet x 5 signatures x 3 modes (about 44 000 cases). "
+        "700 _PyMain(argv).run() front-end cases in-process (all action forms x explicit / no arg mode, recording callees) against "
+        "PyArgs/Main.v; plus bin/py subprocess runs; thorough (60 000 generated) adds all argv of length <= 3 over a 14-token alphabet x 5 signatures x 3 modes (about 44 000 cases). "
         "non-trivial = an option or more than one argument; distinct by hash of the case")
     ctx.assumptions += [
         "expression evaluation is an oracle argument: for every string of the command line, `str(block).strip()`, "
@@ -937,9 +972,17 @@ def run(ctx):
         "BindSpec.bind is Python's call-binding rule: compared with inspect.signature(f).bind on every delivered call and "
         "on generated calls (including failing ones)",
     ]
+    ctx.assumptions += [
+        "front end: whether the first argument seems like a file name / is a runnable module / parses, whether the joined text parses "
+        "and auto-imports, what the function expression evaluates to (callable with which signature) are oracle arguments taken from "
+        "the real functions on the run; the non-argument machinery (_enable_debug_tools, IPython, help text, debugger) is stubbed",
+    ]
     ctx.notes["trusted_base"] = ["inspect.signature(f).bind (CPython) as the reference for call binding",
                                  "plain CPython eval/ast.parse as the independent meaning of 'the value of evaluating it as an expression'"]
+    from . import c15_main
     cases = cm.load_corpus("C15") + gen_cases(ctx, n)
+    nmain = (700 if ctx.quick else 20000) * ctx.scale
+    cases += [c15_main.gen_main_case(cm.rng(ctx.seed, "c15main", i), "m%d" % i) for i in range(nmain)]
     if not ctx.quick:
         cases += enum_cases()
     impl = cm.run_impl("c15", "impl_case", cases)
@@ -948,7 +991,7 @@ def run(ctx):
     compare(ctx, cases, impl, index, model)
     ctx.notes["model_evaluations_in_kernel"] = len(exprs)
     # bin/py subprocess sample
-    cli = gen_cli_cases(ctx, 24 if ctx.quick else 400)
+    cli = gen_cli_cases(ctx, (24 if ctx.quick else 400) * ctx.scale)
     cres = cm.run_impl("c15", "impl_case", cli, timeout_case=90)
     for c, im in zip(cli, cres):
         ctx.count(c, True)
@@ -973,5 +1016,9 @@ def replay(payload):
         out["model"] = {tag: (model_res(m) if tag in ("parse", "legacy") else m) for (_, tag), m in zip(index, model)}
         if case["kind"] == "parse" and "res" in impl[0]:
             out["oracle"] = oracle_parse(case, impl[0])
+        if case["kind"] == "main" and "obs" in impl[0]:
+            from . import c15_main
+            out["model"] = {"main": c15_main.model_view(model[0])}
+            out["oracle"] = c15_main.oracle_main(case, impl[0]) + c15_main.oracle_main_auto(case, impl[0])
     print(json.dumps(out, indent=1, ensure_ascii=False))
     return 0
